@@ -43,7 +43,7 @@ type Case struct {
 
 var opKinds = map[string][]string{
 	"image":         {"Hash", "Bytes", "Open", "Signatures", "Verify", "Verify", "VerifyOutsider", "VerifyTwin"},
-	"database":      {"Bytes", "Marshal", "SigDataExists", "BytesExists", "Exists", "ListBytes"},
+	"database":      {"Bytes", "Marshal", "SigDataExists", "BytesExists", "Exists", "ExistsSpread", "ExistsAbsent", "ListBytes"},
 	"signed_update": {"Marshal", "Bytes"},
 	"descriptor":    {"Marshal", "Verify", "VerifyOutsider", "VerifyTwin"},
 }
@@ -194,6 +194,24 @@ func dbRunner(db *signature.SignatureDatabase) runner {
 				return fmt.Sprint(db.SigDataExists(ty, &flat[i]))
 			}
 			return fmt.Sprint(db.BytesExists(ty, flat[i].Owner, flat[i].Data))
+		case "ExistsSpread", "ExistsAbsent":
+			// a query list the caller built: one entry of every list of the type (so no single list answers it),
+			// for ExistsAbsent followed by an entry the database does not hold
+			if len(*db) == 0 {
+				return "-"
+			}
+			ty := (*db)[op.Arg%len(*db)].SignatureType
+			q := signature.NewSignatureList(ty)
+			for _, l := range *db {
+				if l.SignatureType == ty && len(l.Signatures) > 0 {
+					s := l.Signatures[(op.Arg/7)%len(l.Signatures)]
+					q.Signatures = append(q.Signatures, signature.SignatureData{Owner: s.Owner, Data: append([]byte{}, s.Data...)})
+				}
+			}
+			if op.Kind == "ExistsAbsent" {
+				q.Signatures = append(q.Signatures, signature.SignatureData{Owner: adapt.Lib(gen.Owners[0]), Data: []byte("an entry that is in no list of the database")})
+			}
+			return fmt.Sprint(db.Exists(ty, q), len(q.Signatures))
 		default:
 			if len(*db) == 0 {
 				return "-"
